@@ -81,6 +81,8 @@ check("C03", "transactions are all-or-nothing", [
        "3-entry transaction, one oversized entry at position 0..2; later transaction read-only or read-write", reach=("committed", "failed")),
     ob("VerifC03_CrashInCommit", "pkg/engine", "commit of 2-3 puts, the process dies at any file-system step of the commit (both crash models, torn in-flight write): after recovery all keys of the transaction or none; an acknowledged commit completely. Shapes: small values; values filling two log records completely (batch at the log buffer's capacity); a 40 KB transaction behind a 30 KB write still pending in the log buffer (sync modes none/batch: all-or-nothing only, survival of the acknowledged commit is not promised there)",
        "2-3 keys; crash at every simfs operation inside begin..commit; torn lengths: every length <=24 bytes else 8 representatives; record-filling values with d in 0..1; pending-buffer shape with sync mode none or batch", q={"budget_s": 300}),
+    ob("VerifC03_CrashInLargeCommit", "pkg/engine", "commit of a transaction larger than the log buffer (quick: 3 x 30 KB) or larger than 1 MiB (thorough: 36 x 30 KB, above every internal budget of the write path), the process dies at any file-system step of the commit (both crash models): all keys or none after recovery; an acknowledged commit completely",
+       "3 puts of 30 000 bytes; every crash point, torn lengths: 8 representatives", "36 puts of 30 000 bytes (1.08 MB)", q={"budget_s": 300, "stepcap": 400000000}, t={"budget_s": 1500, "stepcap": 400000000}, no_validate=True),
     ob("VerifC03_CommitVsReader", "pkg/engine", "a committing transaction (2 keys) vs. a reader doing two plain gets in either order or inside a read-only transaction: first read new => second read new; a read-only transaction sees one state",
        "2 threads, preemption bound 1", "preemption bound 2", q=P1, t=P2, no_validate=True),
 ], [SIMFS, CLOCK, HASH, BLOOM, RAND, LOG, TIERA], [])
